@@ -390,6 +390,7 @@ def run_check(prop: str, tier: str, seed: int, replay: str | None, t0: float) ->
 
     # oracle failures
     failures: list[dict] = []
+    inconclusive: list[str] = []
     for c in cases:
         r = results.get(c['id'])
         if r is None:
@@ -397,7 +398,14 @@ def run_check(prop: str, tier: str, seed: int, replay: str | None, t0: float) ->
         for f in r['failures']:
             f = dict(f)
             f['case'] = c['id']
+            if 'inconclusive-' in str(f.get('key', '')):
+                # an observation that could not be completed (a time limit on a very large input): recorded, not judged
+                inconclusive.append(f'case {c["id"]}: {f.get("what")}')
+                continue
             failures.append(f)
+    if inconclusive:
+        notes.append(f'{len(inconclusive)} inconclusive observation(s) (time limit reached, nothing wrong observed): '
+                     + '; '.join(inconclusive[:6]))
     if crashed is not None and crashed >= 0:
         failures.append({'case': crashed, 'key': 'crash',
                          'what': f'the interpreter died (exit status {impl_rc}) while running this case'})
